@@ -373,6 +373,12 @@ func (fr *Frame) applyContract(c *Contract, fn *ssa.Function, key string, args [
 	for _, en := range c.Ensures {
 		t, err := fr.evalClause(en, &evalCtx{fr: fr, st: fr.st, old: pre, names: rnames, callee: key, assuming: true})
 		if err != nil {
+			if strings.Contains(err.Error(), "atAcquire()") {
+				// the clause speaks about the callee's own critical section:
+				// not usable by the caller (dropping an assumption is sound)
+				fr.vc.abstracted("postcondition of " + key + " over atAcquire() not used at call sites")
+				continue
+			}
 			fr.stale(name+"/ensures", err)
 			continue
 		}
